@@ -1758,19 +1758,25 @@ class C14(Check):
     case_timeout = 20.0
     budget = {"quick": 8000, "thorough": 150000}
     search_budget = {"quick": 3000, "thorough": 20000}
-    rule = ("seeded data-class declarations (1-3 plain required fields, field types over int float str bool None bytes Decimal date "
-            "datetime time timedelta UUID Enum (plain / int / str mixin) List Set Tuple[...] Tuple[T, ...] Dict[str|int, T] nested "
-            "Schema, depth <= 2 quick / 3 thorough, Optional[T]) x boundary-rich instances (negative / positive / "
+    rule = ("seeded data-class declarations x boundary-rich instances x encoder entry point, in three equal streams: (1) one field "
+            "of a random type; (2) 1-3 plain required fields; (3) the class side - Field(alias) / alias_generator camel|pascal / "
+            "alias_from, per-field and class-wide case_insensitive, data_first_search None|True|False, Options(mode) with per-field mode, "
+            "defaults / default_factory, required=False, no_output, no_input, output @property with 1-3 declared dependencies, max_depth "
+            "2-4 with Optional['Self'] / List['Self'] chains up to (rarely beyond) the limit; 35 % of those instances mutated through "
+            "attribute / item assignment, update({}), update(**kw), |= (1-3 operations) before encoding.  Field types over int float str "
+            "bool None bytes Decimal date datetime time timedelta UUID Enum (plain / int / str mixin) List Set Tuple[...] Tuple[T, ...] "
+            "Dict[str|int, T] Optional[T] nested classes (plain or rich), depth <= 2 quick / 3 thorough; values: negative / positive / "
             "second- and microsecond-granular UTC offsets, negative and microsecond durations, timedelta.min/max, Decimals with 1-15 digits "
-            "and exponents -400..400 incl. the subnormal edge and 2^53, huge ints, -0.0, 5e-324, escapes / astral text, empty containers), "
-            "encoded by json.dumps(cls=JSONEncoder) or JSONSerializer; thorough adds a deterministic grid of offsets x clocks, durations and "
-            "Decimal coefficient x exponent pairs.  non-trivial = the declaration has a field type JSON does not represent natively (an "
-            "encoder and a converter run); distinct by (type shape, set of leaf value classes)")
+            "and exponents -400..400 incl. the subnormal edge and 2^53, huge ints, -0.0, 5e-324, escapes / astral text, empty containers; "
+            "thorough adds a deterministic grid of offsets x clocks, durations and Decimal coefficient x exponent pairs.  non-trivial = the "
+            "declaration has a field type JSON does not represent natively or is a rich class; distinct by (declaration shape incl. field "
+            "kinds / alias / case flags / options, set of leaf value classes)")
     assumptions = [
         "PrimLaws (CPython's strptime / time.fromisoformat / re / timedelta(float) / float(Decimal) / repr(float) / Decimal(str) / UUID / UTF-8 / json "
         "on the encoders' output) are hypotheses of the theorems: audited against the running interpreter on generated values every run, "
         "and satisfied by the concrete Lean instance P0 (C14_primlaws_P0)",
-        "data classes = Schema subclasses with plain required fields; str = Unicode scalar values (no lone surrogates); |int| < 10^4000 "
+        "data classes = Schema subclasses; a required no_output field, an assigned no_input field, a property with undeclared "
+        "dependencies, pop/del/setdefault and untyped additions are outside (not rebuildable from output by design / C07); str = Unicode scalar values (no lone surrogates); |int| < 10^4000 "
         "(CPython's int/str digit limit); dict keys str or int; time values naive or aware at millisecond precision; frozenset / deque / "
         "attribute-based DataClass are outside (no encoder registered)",
     ]
